@@ -130,7 +130,7 @@ func cliMake(args []string) int {
 	if *mode == "tiny" {
 		nt = 1
 	}
-	kinds := []gsgpkg.GeometryType{gsgpkg.Polygon, gsgpkg.MultiPolygon, gsgpkg.Point, gsgpkg.Linestring}
+	kinds := []gsgpkg.GeometryType{gsgpkg.Polygon, gsgpkg.MultiPolygon, gsgpkg.Point, gsgpkg.Linestring, gsgpkg.MultiPoint, gsgpkg.MultiLinestring}
 	for ti := 0; ti < nt; ti++ {
 		gt := kinds[rng.Intn(len(kinds))]
 		if ti == 0 {
